@@ -188,6 +188,34 @@ def critical_flag(prog, dr):
     return None
 
 
+def encoder_sites(db, rep):
+    """qmail-remote blast() against the RFC 5321 receiver: instance -> (ok, where, detail, path); shared with C05 (round trip)"""
+    prog = db.program('qmail-remote')
+    blast = prog.fn('blast', 'qmail-remote.c')
+    H = BlastHooks()
+    dr = prog.fn('dropped', 'qmail-remote.c')
+    H.critflag = critical_flag(prog, dr)
+    if H.critflag is None:
+        raise AnalysisBroken('dropped(): the flag guarding the duplicate warning was not identified')
+    eng = Engine(db, prog, H)
+    eng.run(blast)
+    rep.count_states(eng.states, eng.transitions)
+    if not H.bad and (H.reads < 2 or H.puts < 3 or H.returns == 0):
+        raise AnalysisBroken('blast(): expected reads/puts/returns not found (%d/%d/%d)' % (H.reads, H.puts, H.returns))
+    insts = ['end-of-data-only-at-the-end', 'end-of-data-exactly-once-at-the-end', 'decoded-lines-equal-input-lines',
+             'wire-stream-safe:bare-LF-on-the-wire', 'wire-stream-safe:un-stuffed-dot-at-the-start-of-a-wire-line',
+             'unterminated-last-line-refused', 'partial-line-exit-only-on-unterminated-last-line']
+    out = {}
+    for i in insts:
+        if i in H.bad:
+            w, d, t = H.bad[i]
+            out[i] = (False, w, d, t)
+        else:
+            out[i] = (True, 'qmail-remote.c:blast', '', [])
+    return out
+
+
+
 def run(ctx):
     db, rep = ctx.db, ctx.report
     prog = db.program('qmail-remote')
